@@ -210,7 +210,15 @@ def build(sc):
             self.k += 1
             if n == 0:
                 return Part(value=self.value, quality=self.quality)
-            return Batch(parts=[Part(value=self.value, quality=self.quality) for _ in range(max(n, 0))])
+            # a (user-defined kind of) batch built from a list that is filled afterwards: Batch.parts is that list
+            parts = [Part(value=self.value, quality=self.quality) for _ in range(max(n, 0))]      # (ids: the parts first, then the batch)
+            lst = []
+            b = (Pallet if self.k % 2 else Batch)(parts=lst)
+            lst.extend(parts)
+            return b
+
+    class Pallet(Batch):
+        """a user-defined kind of batch"""
 
     class BatchGen(PartGenerator):
         def __init__(self, prefix, value, quality, n):
@@ -219,7 +227,10 @@ def build(sc):
 
         def generate_part_helper(self, part_name, part_counter):
             parts = [Part(value=self.value, quality=self.quality) for _ in range(self.n)]
-            return Batch(parts=parts)
+            lst = []
+            b = (Pallet if part_counter % 2 else Batch)(parts=lst)
+            lst.extend(parts)
+            return b
 
     def nid(o):
         return W.key(o.id)
@@ -269,7 +280,10 @@ def build(sc):
             o = Proc(upstream=ups, cycle_time=e['cycle'] / CUR[0], resources_for_processing=req)
             o._v_dur, o._v_cap, o._v_cost = e.get('wo_dur', 0) / CUR[0], e.get('wo_cap', 0) / CUR[0], e.get('wo_cost', 0) / CUR[0]
         elif k == 'buffer':
-            o = Buffer(upstream=ups, minimum_delay=e['min_delay'] / CUR[0], capacity=e['capacity'])
+            cap = e['capacity']
+            if cap is not None and sc['seed'] % 3 == 0:
+                cap = cap + 0.6          # a capacity with a fraction counts as its whole part
+            o = Buffer(upstream=ups, minimum_delay=e['min_delay'] / CUR[0], capacity=cap)
         elif k == 'source':
             n = e.get('gen_batch', 0)
             if e.get('gen_pattern'):
